@@ -7,6 +7,7 @@
 //   - the order in which OSM.Objects() flattens the kinds;
 //   - the type-name dispatch table of OSM.UnmarshalJSON;
 //   - which codec entry point every hand-written JSON method calls.
+//
 // usage: jsontags <repo> <outdir>
 package main
 
@@ -158,6 +159,10 @@ func (g *gen) ty(t types.Type) string {
 		el := u.Elem()
 		if n, ok := el.(*types.Named); ok && n.Obj().Name() == "nocopyRawMessage" {
 			return "TRawList"
+		}
+		if _, ok := el.Underlying().(*types.Interface); ok {
+			// a slice of interface values holding the already typed elements (osm.Objects, []Object, []interface{})
+			return "TObjects"
 		}
 		if p, ok := el.(*types.Pointer); ok {
 			el = p.Elem()
@@ -314,13 +319,16 @@ func (g *gen) dispatch() [][2]string {
 				tn, _ := strconv.Unquote(bl.Value)
 				target := ""
 				for _, st := range cc.Body {
-					if as, ok := st.(*ast.AssignStmt); ok && len(as.Lhs) == 1 {
-						if s, ok := as.Lhs[0].(*ast.SelectorExpr); ok {
-							if id, ok := s.X.(*ast.Ident); ok && id.Name == "o" {
-								target = s.Sel.Name
+					ast.Inspect(st, func(n ast.Node) bool {
+						if as, ok := n.(*ast.AssignStmt); ok && len(as.Lhs) == 1 {
+							if s, ok := as.Lhs[0].(*ast.SelectorExpr); ok {
+								if id, ok := s.X.(*ast.Ident); ok && id.Name == "o" {
+									target = s.Sel.Name
+								}
 							}
 						}
-					}
+						return true
+					})
 				}
 				if target == "" {
 					g.fail("UnmarshalJSON: case %q stores nowhere", tn)
